@@ -139,6 +139,21 @@ def _herm_struct(R, lo=2, hi=5):
                                            "of": HERM(n, R.randrange(10 ** 6))}}
 
 
+def _schur_arg(R):
+    """Square input for the Schur family: generic, or already (exactly) upper Hessenberg /
+    triangular / Hermitian tridiagonal - the inputs for which a reduction step can be skipped."""
+    n = R.randint(1, 4)
+    x = R.random()
+    s = R.randrange(10 ** 6)
+    if x < 0.55 or n == 1:
+        return G(n, n, s)
+    if x < 0.75:
+        return {"gen": "hess", "n": n, "seed": s}
+    if x < 0.9:
+        return {"gen": "tri", "n": n, "seed": s, "upper": True}
+    return {"gen": "tridiag_herm", "n": n, "seed": s}
+
+
 def _real(R, m, n):
     return {"gen": "real", "m": m, "n": n, "seed": R.randrange(10 ** 6)}
 
@@ -273,7 +288,7 @@ def _catalogue():
     F("decomp.quaternion_eigenvalues", lambda R: ([R.choice([_herm(R), _herm(R), _herm_struct(R)])], {}))
     F("decomp.quaternion_eigenvectors", lambda R: ([R.choice([_herm(R), _herm(R), _herm_struct(R)])], {}))
     F("decomp.tridiagonalize", lambda R: ([R.choice([_herm(R, 2, 5), _herm_struct(R)])], {}), 2)
-    F("decomp.hessenberg.hessenbergize", lambda R: ([_sq(R)], {}), 2)
+    F("decomp.hessenberg.hessenbergize", lambda R: ([R.choice([_sq(R), _sq(R), _schur_arg(R)])], {}), 2)
     def near(R, base):
         # structured matrix plus noise at rounding level: the input the clean-up helpers exist for
         n = base["n"]
@@ -283,19 +298,19 @@ def _catalogue():
     F("decomp.hessenberg.check_hessenberg",
       lambda R: ([R.choice([_sq(R), near(R, {"gen": "hess", "n": R.randint(2, 5), "seed": R.randrange(10 ** 6)}),
                             near(R, {"gen": "hess", "n": R.randint(3, 5), "seed": R.randrange(10 ** 6)})])], {}), 2)
-    F("decomp.quaternion_schur", lambda R: ([G(*(lambda n: (n, n))(R.randint(1, 4)), R.randrange(10 ** 6))],
+    F("decomp.quaternion_schur", lambda R: ([_schur_arg(R)],
                                           {"max_iter": 40, "shift": R.choice(["wilkinson", "rayleigh"]), "return_diagnostics": R.random() < 0.4}))
-    F("decomp.quaternion_schur_pure", lambda R: ([G(*(lambda n: (n, n))(R.randint(1, 4)), R.randrange(10 ** 6))],
+    F("decomp.quaternion_schur_pure", lambda R: ([_schur_arg(R)],
                                                {"max_iter": 25, "return_diagnostics": R.random() < 0.4}))
     F("decomp.quaternion_schur_pure_implicit",
-      lambda R: ([G(*(lambda n: (n, n))(R.randint(1, 4)), R.randrange(10 ** 6))],
+      lambda R: ([_schur_arg(R)],
                  {"max_iter": 25, "return_diagnostics": R.random() < 0.4}))
     F("decomp.quaternion_schur_unified",
-      lambda R: ([G(*(lambda n: (n, n))(R.randint(1, 4)), R.randrange(10 ** 6))],
+      lambda R: ([_schur_arg(R)],
                  {"max_iter": 25, "variant": R.choice(["rayleigh", "implicit", "aed", "ds", "none"]),
                   "return_diagnostics": R.random() < 0.4}), 2)
     F("decomp.schur.quaternion_schur_experimental",
-      lambda R: ([G(*(lambda n: (n, n))(R.randint(1, 4)), R.randrange(10 ** 6))],
+      lambda R: ([_schur_arg(R)],
                  {"max_iter": 20, "return_diagnostics": R.random() < 0.4}))
     # helpers of the decompositions
     def hv(R):
@@ -714,6 +729,29 @@ def gen_jobs(base_seed, tier, budget=None):
             jobs.append({"seed": seed, "trace": {"prop": PROP, "seed": seed, "world": w, "mode": "buffer",
                                                  "cfgname": fn, "seq": ["H", "N", "H", "N", "H"], "steps": steps}})
         sid += 1
+    # already-reduced inputs, per routine of the reduction / Schur family: exactly upper Hessenberg,
+    # exactly triangular, Hermitian tridiagonal, 2 x 2 - the inputs for which a reduction step can
+    # be skipped (and the caller's array then used as the work array)
+    def _S(n_, sd_):
+        return [{"gen": "hess", "n": n_, "seed": sd_}, {"gen": "hess", "n": 3, "seed": sd_ + 1},
+                {"gen": "tri", "n": n_, "seed": sd_ + 2, "upper": True}, {"gen": "tridiag_herm", "n": n_, "seed": sd_ + 3},
+                G(2, 2, sd_ + 4), {"gen": "add", "a": {"gen": "hess", "n": n_, "seed": sd_ + 5},
+                                   "b": {"gen": "scale", "c": 1e-17, "of": G(n_, n_, sd_ + 6)}}]
+    fam = [("decomp.quaternion_schur", {"max_iter": 30, "shift": "wilkinson"}),
+           ("decomp.quaternion_schur", {"max_iter": 30, "shift": "rayleigh"}),
+           ("decomp.quaternion_schur_pure", {"max_iter": 25}),
+           ("decomp.quaternion_schur_pure_implicit", {"max_iter": 25}),
+           ("decomp.schur.quaternion_schur_experimental", {"max_iter": 20}),
+           ("decomp.hessenberg.hessenbergize", {}), ("decomp.hessenberg.check_hessenberg", {}),
+           ("decomp.hessenberg.is_hessenberg", {})] + \
+          [("decomp.quaternion_schur_unified", {"max_iter": 25, "variant": v_}) for v_ in ("rayleigh", "implicit", "aed", "ds", "none")]
+    for fi, (fn_, kw_) in enumerate(fam):
+        seed = base_seed * 10 ** 6 + 520000 + fi
+        for w in exh_worlds:
+            steps = [{"k": "fn", "fn": fn_, "args": [a_], "client": 0, **({"kwargs": kw_} if kw_ else {})}
+                     for a_ in _S(4, 300 + 10 * fi)]
+            jobs.append({"seed": seed, "trace": {"prop": PROP, "seed": seed, "world": w, "mode": "offtype",
+                                                 "cfgname": fn_ + repr(sorted(kw_.items())), "seq": ["reduced"], "steps": steps}})
     # off-type table: every catalogue function (and every solver configuration) once with its
     # first dense quaternion matrix handed over as a SparseQuaternionMatrix, in EVERY world -
     # answered or rejected, the outcome must not depend on the import style (class identity)
